@@ -86,6 +86,14 @@ CHECKS = {
                      'an operation began has had a turn before the operation completes normally (or time advanced).',
                 note='Operations that end by raising carry no obligation; leaving an until() block that is cut short by its own '
                      'interrupt, Lock entry/exit and channel iteration steps with buffered messages are not judged (DESIGN.md section 6).'),
+    'C12': dict(obs='ObsC12', ref='4/C12',
+                text='TLC checks Conservation / ShareBounded on all bounded programs of borrowers and claimants (waiting, nested '
+                     'shares, Capacities and Resources) and explores increase/decrease/set, forced close (helper activities), '
+                     'cancel and until at every boundary; replay on the real resources; TLC validates real traces against ObsC12: '
+                     'levels never negative, level within [supply - everything out, supply - what the observer holds], level = '
+                     'supply - held at quiescence, claims decided on entry without waiting, no borrower starved, nested <= share.',
+                note='One resource name, amounts 0..2. The leak after an interrupt during acquisition/release is an open known '
+                     'finding (KF-C12-interrupted-transfer); other leaks are violations.'),
 }
 
 
